@@ -211,7 +211,9 @@ func (s *Sim) kubeletActions(faults bool) []Action {
 // settleAll: the benign kubelet of the quiesce phase.
 func (s *Sim) settleAll() {
 	for _, p := range s.Store.Pods() {
-		if p.DeletionTimestamp != nil {
+		if p.DeletionTimestamp != nil || p.Status.Phase == corev1.PodUnknown {
+			// Terminating pods are finalised; pods of lost nodes (phase Unknown) are force
+			// deleted by the pod garbage collector once the node is back or gone
 			s.Store.Remove(objKey{KPod, p.Namespace, p.Name})
 			continue
 		}
